@@ -52,7 +52,7 @@ def mixed_pages(tier):
     for sh in shapes:
         if tier == 'quick':
             for d0 in range(0, 96, 4):       # page regions of these shapes are 48..90 bytes long (positions wrap at the footer)
-                out.append(c06.shape(damage=4, damage0=d0, timeout=240, max_paths=400000, **sh))
+                out.append(c06.shape(damage=4, damage0=d0, timeout=150, max_paths=400000, **sh))
         else:
             for d0 in range(0, 192):         # one position per obligation
                 out.append(c06.shape(damage=1, damage0=d0, timeout=1500, max_paths=400000, **sh))
@@ -66,8 +66,8 @@ def obligations(tier):
     sd = C08.skip_depth(); sd.name = 'metadata/' + sd.name     # a footer / page header nesting containers one level per byte (stack exhaustion)
     o.append(sd)
     if q:
-        # the quick tier must finish well inside 15 minutes: every byte position of skeleton 0's footer (24 obligations x 8
-        # positions), the first 48 bytes of the data region (page header + body of the first pages), strided samples for the
+        # the quick tier must finish well inside 15 minutes: every second byte position of skeleton 0's footer (every position at the
+        # chunks' offset/size/codec fields), every second of the first 48 bytes of the data region (page header + body of the first pages), strided samples for the
         # stdio/mmap paths and skeleton 1; everything else is in the thorough tier
         for w0 in range(0, 192, 8):
             if w0 in HEAVY0:      # windows over the chunk's page offsets: one position per obligation
@@ -81,9 +81,9 @@ def obligations(tier):
                     else:
                         o.append(win(0, 0, w0 + k, 1, 1, 1, 0, 400))
             else:
-                o.append(win(0, 0, w0, 4, 1, 1, 0, 400)); o.append(win(0, 0, w0 + 4, 4, 1, 1, 0, 400))
-        for w0 in range(0, 48, 4):
-            o.append(win(0, 1, w0, 4, 1, 1, 0, 400))
+                o.append(win(0, 0, w0, 4, 2, 1, 0, 400))      # the even positions w0, w0+2, w0+4, w0+6 (the odd ones are in the thorough tier)
+        for w0 in range(0, 48, 8):
+            o.append(win(0, 1, w0, 4, 2, 1, 0, 400))
         o.append(win(0, 0, 0, 6, 31, 1, 1, 400)); o.append(win(0, 0, 0, 6, 31, 1, 2, 400))
         o.append(win(0, 1, 0, 6, 13, 1, 2, 400))
         o.append(win(1, 0, 0, 8, 29, 1, 0, 400)); o.append(win(1, 1, 0, 8, 11, 1, 0, 400))
